@@ -136,6 +136,9 @@ def gen_plan(rng, index, tier):
     if behind and not coupling and rng.random() < 0.4:
         c = rng.randrange(n)
         steps.append(_mk_step(0, rng.choice(behind)["name"], ("EveryNode", c, rng.randrange(bs + 1), None), "dupwrite"))
+    for _ in range(rng.choice([0, 0, 1, 2])):
+        # a reader peeking at the shared copy in the working directory in the middle of the run
+        steps.append(_mk_step(0, rng.choice(actors)["name"], rng.choice(pts), "peek"))
     if rng.random() < 0.12:
         # a halt request at BOC: the run stops there, end-of-life still runs (and writes)
         steps.append(_mk_step(0, rng.choice(actors)["name"], ("BOC", rng.randrange(n), None, None), "halt"))
@@ -161,6 +164,13 @@ def gen_plan(rng, index, tier):
         if cfg.get("fuelHandler") and rng.random() < 0.5:
             steps.append({"life": 1, "actor": "fuelHandler", "hook": "BOC", "cycle": rng.randrange(n), "op": "swap", "a": rng.randrange(1000), "b": rng.randrange(1000)})
     cfg["reader"] = {"loads": rng.randint(1, 3), "hist_objs": rng.randint(1, 4), "pick": rng.randrange(10**6), "split": rng.random() < 0.4}
+    if rng.random() < 0.1:
+        # separately-oracled configuration (DESIGN.md 3.6): the N-th dataset creation after a plan-chosen
+        # hook fails with ENOSPC, i.e. the failure is inside the database writer itself
+        cfg["diskfull"] = True
+        steps = [s for s in steps if s["op"] != "abort" and s.get("life", 0) == 0]
+        cfg.pop("restart", None)
+        steps.append(_mk_step(0, rng.choice(actors)["name"], rng.choice([p for p in pts if p[0] in ("BOC", "EveryNode", "EOC")]), "enospc", nth=rng.randint(1, 60)))
     return {"config": cfg, "steps": steps}
 
 
@@ -319,6 +329,67 @@ def op_dupwrite(d, st, actor):
     return None
 
 
+def op_peek(d, st, actor):
+    """A reader opens the copy in the working directory mid-run: it must open, be marked
+    unfinished, and hold every snapshot that was acknowledged before the last completed sync."""
+    import h5py
+
+    title = actor.o.cs.caseTitle
+    path = os.path.join(d.scratch, title + ".h5")
+    if not os.path.exists(path) or not d.synced_upto.get(d.life):
+        return None
+    d.probes["midrun_peeks"] += 1
+    try:
+        f = h5py.File(path, "r")
+    except Exception as e:  # noqa: BLE001
+        raise OracleFailure("C06.midrun", f"the shared copy does not open in the middle of the run: {e}", {"what": "unopenable"})
+    try:
+        dbi = actor.o.getInterface("database")
+        finalised = dbi is None or dbi._db is None or not dbi._db.isOpen()
+        if not finalised and bool(f.attrs.get("successfulCompletion", False)):
+            raise OracleFailure("C06.midrun", "the shared copy is marked successfully completed in the middle of the run", {"what": "flag"})
+        n = d.synced_upto[d.life]
+        for w in [w for w in d.writes if w["life"] == d.life][:n]:
+            if w["name"] not in f:
+                raise OracleFailure("C06.midrun", f"the shared copy misses snapshot {w['name']}, which was acknowledged before the last sync", {"what": "missing"})
+            if enginea.h5_group_hash(f[w["name"]]) != w["ghash"]:
+                raise OracleFailure("C06.midrun", f"snapshot {w['name']} in the shared copy differs from what was acknowledged", {"what": "content"})
+    finally:
+        f.close()
+    return None
+
+
+_ENOSPC = {"armed": None, "fired": False}
+
+
+def _install_enospc():
+    import errno
+
+    import h5py
+
+    if getattr(h5py.Group, "_verif_wrapped", False):
+        return
+    orig = h5py.Group.create_dataset
+
+    def create_dataset(self, name, *a, **kw):
+        if _ENOSPC["armed"] is not None:
+            _ENOSPC["armed"] -= 1
+            if _ENOSPC["armed"] <= 0:
+                _ENOSPC["armed"] = None
+                _ENOSPC["fired"] = True
+                raise OSError(errno.ENOSPC, "No space left on device (injected)")
+        return orig(self, name, *a, **kw)
+
+    h5py.Group.create_dataset = create_dataset
+    h5py.Group._verif_wrapped = True
+
+
+def op_enospc(d, st, actor):
+    _install_enospc()
+    _ENOSPC["armed"] = int(st["nth"])
+    return None
+
+
 def before_abort(d, st, actor):
     d.abort_state = {"sent": sentinel_map(actor.o.r), "cycle": int(actor.o.r.p.cycle), "node": int(actor.o.r.p.timeNode)}
 
@@ -342,7 +413,19 @@ def on_write(d, db, reactor, ent):
 def choose_swaps(d, fh):
     r = fh.r
     cyc = int(r.p.cycle)
+    if getattr(d, "changer", None) is not None:
+        return  # no shuffling while a symmetry conversion is pending (restore would strand originals outside the domain)
     for i, st in d.by_key.get((d.life, "fuelHandler", "BOC", cyc, None, None), ()):
+        if st["op"] == "discharge":
+            asm = list(r.core)
+            out = asm[st["a"] % len(asm)]
+            inc = r.core.createAssemblyOfType(assemType=out.getType())
+            d.fired["discharge"] += 1
+            d.log.add("op", i, "discharge", out.getLocation())
+            fh.dischargeSwap(inc, out)
+            d.dirty = True
+            d.nswaps += 1
+            continue
         asm = list(r.core)
         if len(asm) < 2:
             continue
@@ -602,10 +685,77 @@ def _window(director, abort_step, stack_names, life, restart_cfg):
     return True
 
 
+def diskfull_run(plan, cfg, cs, o, d, scratch, title, log, clock, simos):
+    """Narrow oracle of the disk-full configuration: snapshots acknowledged *before* the fault keep
+    their logged content in whatever file is left; nothing is asserted about the torn snapshot, the
+    completion flag or later snapshots (the property excludes failures of the writer itself)."""
+    import h5py
+
+    _ENOSPC["armed"] = None
+    _ENOSPC["fired"] = False
+    try:
+        with o:
+            o.operate()
+        ended = "completed"
+    except BaseException as e:  # noqa: BLE001
+        if not _ENOSPC["fired"]:
+            raise
+        ended = type(e).__name__
+    finally:
+        _ENOSPC["armed"] = None
+    probes = d.probes
+    probes["diskfull_runs"] += 1
+    if _ENOSPC["fired"]:
+        probes["enospc_fired"] += 1
+    acked = [w for w in d.writes if "ghash" in w]
+    path = os.path.join(scratch, title + ".h5")
+    sync = cfg["settings"].get("syncAfterWrite", True)
+    if _ENOSPC["fired"] and os.path.exists(path):
+        try:
+            f = h5py.File(path, "r")
+        except Exception as e:  # noqa: BLE001
+            raise OracleFailure("C06.diskfull", f"file left after a disk-full write does not open: {e}", {"what": "unopenable"})
+        try:
+            present = [w for w in acked if w["name"] in f]
+            for w in present:
+                if enginea.h5_group_hash(f[w["name"]]) != w["ghash"]:
+                    raise OracleFailure("C06.diskfull", f"snapshot {w['name']}, acknowledged before the disk filled up, changed", {"what": "content"})
+            # with sync-after-write every acknowledged node snapshot reached the working directory
+            if sync:
+                plain = [w for w in acked if len(w["name"]) == 6]
+                upto = d.synced_upto.get(0, 0)
+                for w in [w for w in d.writes if w["life"] == 0 and "ghash" in w][:upto]:
+                    if w["name"] not in f:
+                        raise OracleFailure("C06.diskfull", f"snapshot {w['name']} had been synced to the working directory before the disk filled up and is gone", {"what": "lost"})
+                _ = plain
+        finally:
+            f.close()
+    stats = {"acknowledged_writes": len(acked), "op_enospc": d.fired.get("enospc", 0)}
+    for k, v in simos.stats.items():
+        stats["fs_" + k] = v
+    return kernel.result(
+        kernel.PASS,
+        digest=log.digest(),
+        nevents=len(log),
+        stats=stats,
+        probes=dict(probes),
+        sim={"virtual_wall_s": clock.slept},
+        sig=kernel.digest(["diskfull", ended, len(acked), sorted((s["hook"], s["op"]) for s in plan["steps"])])[:16],
+        nontrivial=bool(_ENOSPC["fired"]),
+    )
+
+
 def execute(plan):
     cfg = plan["config"]
     log, scratch, clock, simos, d = enginea.new_run(plan)
-    d.ops.update({"set": op_set, "dupwrite": op_dupwrite, "_before_abort": before_abort})
+    d.ops.update({"set": op_set, "dupwrite": op_dupwrite, "_before_abort": before_abort, "peek": op_peek, "enospc": op_enospc})
+    d.scratch = scratch
+    d.synced_upto = {}
+
+    def copy_done(dst):
+        d.synced_upto[d.life] = len([w for w in d.writes if w["life"] == d.life and "ghash" in w])
+
+    simos.on_copy_done = copy_done
     d.on_write_cb = on_write
     d.choose_swaps = lambda fh: choose_swaps(d, fh)
     d.dirty = False
@@ -623,6 +773,8 @@ def execute(plan):
         cs, o, infos = enginea.build_life(cfg, scratch, 0, d)
         title = cs.caseTitle
         stack_names = [i.name for i in o.interfaces]
+        if cfg.get("diskfull"):
+            return diskfull_run(plan, cfg, cs, o, d, scratch, title, log, clock, simos)
         err = enginea.run_life(o, d)
         path = os.path.join(scratch, title + ".h5")
         writes0 = {w["name"]: w for w in d.writes if w["life"] == 0}
